@@ -604,10 +604,23 @@ func (u *Unit) execCopy(fr *Frame, c *ssa.CallCommon, args []Val, st *State, rea
 // sigNames returns receiver/parameter names and result names of a callee.
 func sigNames(c *ssa.CallCommon, fn *ssa.Function) (params []string, results []string, sig *types.Signature) {
 	sig = c.Signature()
-	if fn != nil {
+	if fn != nil && len(fn.Params) > 0 {
 		sig = fn.Signature
 		for _, p := range fn.Params {
 			params = append(params, p.Name())
+		}
+	} else if fn != nil {
+		// function without a body (loaded from export data): names come from the signature
+		sig = fn.Signature
+		if r := sig.Recv(); r != nil {
+			n := r.Name()
+			if n == "" {
+				n = "recv"
+			}
+			params = append(params, n)
+		}
+		for i := 0; i < sig.Params().Len(); i++ {
+			params = append(params, sig.Params().At(i).Name())
 		}
 	} else {
 		if c.IsInvoke() {
@@ -706,6 +719,11 @@ func (u *Unit) applyContract(fr *Frame, ct *Contract, name string, c *ssa.CallCo
 		u.assume(tTrue, app("Bool", ">=", st.alloc, prev))
 	}
 	res := u.freshResult(st, resT, name)
+	if _, fresh := ct.Opts["fresh"]; fresh && res.Tup == nil && res.T.Sort == "Int" {
+		// the callee returns a newly allocated object
+		res.T = u.newRef(st)
+		res.NonNil = true
+	}
 	env2 := u.contractEnv(ct, params, args, st, old)
 	bindResults(env2, res, resNames)
 	for _, en := range ct.Ensures {
@@ -714,6 +732,8 @@ func (u *Unit) applyContract(fr *Frame, ct *Contract, name string, c *ssa.CallCo
 		f, ok := u.tryEvalBool(en.Expr, env2)
 		if ok {
 			u.assume(reach, f)
+		} else if ct.Kind == "trusted" {
+			u.specFail("clause of the trusted contract of %s cannot be evaluated at a call site: %s", name, en.Src)
 		}
 	}
 	for _, en := range ct.AssumedEnsures {
